@@ -16,7 +16,8 @@ SIBLINGS = {"C01-r2-1": ["C19"], "C05-r2-1": ["C19"], "C06-r2-1": ["C19"], "C08-
             "C03-r3-2": ["C07"], "C11-r3-2": ["C09"], "C20-r3-2": ["C09"],
             "C04-r4-2": ["C10"], "C05-r4-2": ["C02"], "C06-r4-2": ["C10"], "C08-r4-2": ["C06"],
             "C03-r5-1": ["C07"], "C03-r5-2": ["C04"], "C09-r5-2": ["C10"], "C19-r5-2": ["C12"], "C20-r5-1": ["C05"],
-            "C04-r6-1": ["C10"], "C05-r6-1": ["C02"], "C06-r6-1": ["C19"], "C08-r6-1": ["C10"], "C11-r6-1": ["C10"], "C12-r6-1": ["C19", "C04"]}
+            "C04-r6-1": ["C10"], "C05-r6-1": ["C02"], "C06-r6-1": ["C19"], "C08-r6-1": ["C10"], "C11-r6-1": ["C10"], "C12-r6-1": ["C19", "C04"],
+            "C09-r7-2": ["C05"], "C19-r7-1": ["C17"], "C06-r7-2": ["C19"]}
 # seeded changes whose demonstration lies outside the library's documented domain (not demanded of any check)
 OUT_OF_DOMAIN = {"C15-r5-1": "the change only manifests when input and output are views of the SAME memory with different strides (in-place transposition through "
                              "the four-argument dft); neither the adaptor's README nor the library's documents such aliasing (the library's README calls overlapping "
